@@ -261,6 +261,8 @@ theorem paxLine_schilyRaw (pc : PaxCfg) (hpc : pc.keepOrder = false) (st : PaxSt
   simp only [findHandler_schily, applyHandler, hpc, Bool.false_eq_true, if_false, kindFlag, setFlag, true_or, if_true]
   have hdk : (schilyPrefix ++ key).drop 13 = key := List.drop_left' (by decide)
   rw [hdk]
+  have hne : ¬ (PaxKind.schily = PaxKind.sparseMap) := by decide
+  simp only [hne, if_false]
 
 /-! ### key escaping (`xattr_encode_keyword` / `xattr_decode_keyword`) -/
 
